@@ -67,6 +67,7 @@ func verifBody_C19_cipherlist() {
 	cl := NewCipherList()
 	cl.Update(mk("old", oldLen))
 	ip := netip.AddrFrom4([4]byte{203, 0, 113, 5})
+	ip2 := netip.AddrFrom4([4]byte{203, 0, 113, 6})
 	snap := cl.SnapshotForClientIP(ip)
 	newLen := (1 + 2*verifChoice("new-list-longer", 2)) * scale
 	var s []*list.Element
@@ -75,6 +76,7 @@ func verifBody_C19_cipherlist() {
 		func() { s = cl.SnapshotForClientIP(ip) },
 		func() { cl.MarkUsedByClientIP(snap[1], ip) },
 		func() { cl.Update(fresh) },
+		func() { cl.MarkUsedByClientIP(snap[0], ip2) }, // the key at the front, used from another address
 	)
 	// the snapshot equals the one of some sequential order: the whole old list or the whole new one
 	nOld, nNew, nNil := 0, 0, 0
@@ -198,4 +200,29 @@ func verifParStart(start chan struct{}, fs ...func()) {
 	}
 	close(start)
 	wg.Wait()
+}
+
+// C08 / C19: connections of one access key mark and recognise salts at the same time
+func VH_C08_concurrent_salts() {
+	for rep := 0; rep < verifRepeat(300); rep++ {
+		verifBody_C08_concurrent_salts()
+	}
+}
+
+func verifBody_C08_concurrent_salts() {
+	verifRaceDetect(true)
+	verifSched(1)
+	e := MakeCipherEntry("id-0", verifKey(0, "s1"), "s1")
+	sg := e.SaltGenerator
+	s0, s1, s2 := make([]byte, 32), make([]byte, 32), make([]byte, 32)
+	verifAssert("C08.concurrent.first-salt", sg.GetSalt(s0) == nil)
+	ok0 := false
+	verifPar(
+		func() { sg.GetSalt(s1) },
+		func() { sg.GetSalt(s2) },
+		func() { ok0 = sg.IsServerSalt(s0) },
+	)
+	verifAssert("C08.concurrent.recognised-while-others-are-issued", ok0)
+	verifAssert("C08.concurrent.issued-salts-recognised", sg.IsServerSalt(s1) && sg.IsServerSalt(s2))
+	verifReach("C08.concurrent.done", true)
 }
